@@ -1,4 +1,5 @@
 import TmcgProps.C16SignRun
+import TmcgProps.C16SignRunFull
 import TmcgProps.C16Cgjkr
 import TmcgProps.C16Sign
 import TmcgProofs.Tsig
